@@ -439,6 +439,25 @@ def window_affine(ctx, L, rule="R-WINDOW-AFFINE"):
                 other = rec.cond[2] if rec.cond[3] == wait else rec.cond[3]
                 dd = affine_diff(other, idx0)
                 hits.append((j, rec.pol, dd))
+        # every iteration that sends a data packet and stays in the sending state compares its index with the window end
+        # (an iteration that cannot reach the comparison keeps sending past the grant)
+        untested = None
+        for (i, e) in sends:
+            if sub(_job_entry(r, i, L) or Ej, "state") != sub(Ej, "state"):
+                continue
+            lo = max([k for k in range(i) if r.recs[k].ev.kind == "cond" and r.recs[k].ev.extra == "loop"] or [0])
+            hi = min([k for k in range(i + 1, len(r.recs)) if r.recs[k].ev.kind == "cond" and r.recs[k].ev.extra == "loop"] or [len(r.recs)])
+            tested = any(j_ in range(lo, hi) for j_, _, _ in hits)
+            leaves = any(x.kind == "store" and x.target == sub(Ej, "state") and x.value != ("c", sending)
+                         for k, x in r.effects() if lo <= k < hi)
+            if not tested and not leaves:
+                untested = e
+                break
+        if untested is not None:
+            m += 1
+            ctx.violated(rule, L.job, "%s burst loop leaves at the window end" % L.tag, "a data packet is sent in a loop iteration that keeps the session in the "
+                         "sending state without comparing the packet index with the window end: segments beyond the CTS grant are sent", untested.node)
+            continue
         if not hits:
             continue
         m += 1
